@@ -4,6 +4,7 @@ import contextlib
 import re
 
 from harness.impl import fordrun as F
+from harness.gen import c07gen as G
 
 
 def path_of(obj):
@@ -111,6 +112,8 @@ def find_unit_obj(p, u):
         return by_name(p.programs, u["name"])
     if u["kind"] == "blockdata":
         return by_name(p.blockdata, u["name"])
+    if u["kind"] == "submodule":
+        return by_name(p.submodules, u["name"])
     return next((x for x in p.procedures if str(x.name).lower() == u["name"].lower() and x.parobj == "sourcefile"), None)
 
 
@@ -137,6 +140,9 @@ def observe(prog, files):
             if fs is None:
                 problems.append("submodule %s not found" % sm["name"])
                 continue
+            out = []
+            walk(G.sub_scope(sm), fs, [], out, problems)
+            obs[sm["name"].lower()] = out
             a = fs.ancestor_module
             subs.append((mods, sm["ancestor"], None if isinstance(a, str) else str(a.name)))
             if sm["parent"]:
